@@ -366,6 +366,11 @@ def Mon.step (m : Mon) (w : World) (l : Label) (w' : World) : Mon × List Vio :=
       (m,
        (if !unfinished.isEmpty then
           v "C15" "returnedBeforeAcceptedFinished" (busHangSigs w m b) s!"bus {b}: events {unfinished} accepted before the call have not finished there" else []) ++
+       -- (redundant on a conforming history, where an ended activation has no live handler: it speaks on a history that is
+       -- followed after the correspondence has broken)
+       (let live := (insts w).filter fun i => (w.inst i).bus == b && (w.inst i).st != .finished && acc.contains (w.inst i).ev
+        if !live.isEmpty then
+          v "C15" "returnedWhileHandlerRunning" (busHangSigs w m b) s!"bus {b}: handler instances {live} of events accepted before the call are still unfinished" else []) ++
        (if !(w.bus b).queue.isEmpty then
           v "C15" "returnedWithQueued"
             (if (w.bus b).queue.all (fun e => (w.ev e).status == .completed) then ["fwd-queued"] else [])
